@@ -26,12 +26,12 @@ PIN_FILE = projlib.SP / "runtime_pin.json"
 
 SCOPES = {
     "quick": [
-        ("card", dict(MaxCard=2, MaxUses=1, InnerChoice={3}, CardChoice={1, 2, 3, 4, 5, 6, 7, 8}, HomeChoice={1, 3})),
-        ("uses", dict(MaxCard=2, MaxUses=2, InnerChoice={1, 4}, CardChoice={3, 6}, HomeChoice={2, 4, 5, 6, 7})),
+        ("card", dict(MaxCard=2, MaxUses=1, InnerChoice={3}, CardChoice={1, 2, 3, 4, 5, 6, 7, 8, 9, 10}, HomeChoice={3})),
+        ("uses", dict(MaxCard=2, MaxUses=2, InnerChoice={4}, CardChoice={3, 6, 9}, HomeChoice={2, 4, 5, 6, 7})),
     ],
     "thorough": [
-        ("card", dict(MaxCard=3, MaxUses=2, InnerChoice={2, 3}, CardChoice={1, 2, 3, 4, 5, 6, 7, 8}, HomeChoice={1, 3, 6})),
-        ("uses", dict(MaxCard=3, MaxUses=3, InnerChoice={1, 4}, CardChoice={1, 2, 3, 6}, HomeChoice={1, 2, 3, 4, 5, 6, 7})),
+        ("card", dict(MaxCard=3, MaxUses=1, InnerChoice={2, 3}, CardChoice={1, 2, 3, 4, 5, 6, 7, 8, 9, 10}, HomeChoice={1, 3, 6})),
+        ("uses", dict(MaxCard=2, MaxUses=2, InnerChoice={1, 4}, CardChoice={1, 2, 3, 6, 9}, HomeChoice={1, 2, 3, 4, 5, 6, 7})),
     ],
 }
 
@@ -83,7 +83,10 @@ def signature(b: dict) -> list[tuple[str, str]]:
     sigs = []
     for f in b.get("bad", []):
         ctx = "cond" if "$cond" in f["path"] else "plain"
-        sigs.append((f"C25|{f['kind']}|{ctx}|{classify(f['problems'])}",
+        # inside a client pointer's own reader every mis-resolution has one cause (read.ts hands the parent's list to the
+        # condition reader): one signature
+        cls = "wrong-query" if ctx == "cond" else classify(f["problems"])
+        sigs.append((f"C25|{f['kind']}|{ctx}|{cls}",
                      f"{f['kind']} field `{f['name']}` on {f['on']} at {'.'.join(f['path'])} -> __refetch__{f['sel']}: "
                      + "; ".join(sorted(f["problems"]))))
     for f in b.get("missing", []):
@@ -103,7 +106,7 @@ def compile_and_judge(chk, progs: list[dict], tag: str, count=True):
     for i, o in enumerate(obs):
         if o.get("outcome") == "ok":
             recs += records_of(o, progs[i], expose, i)
-    printed = pc.judge_all(chk, "ObsC25.tla", recs, tag=tag, count=count) if recs else []
+    printed = pc.judge_all(chk, "ObsC25.tla", recs, tag=tag, count=count, coverage_probe=count) if recs else []
     return obs, recs, printed
 
 
@@ -117,7 +120,7 @@ def bad_signatures(printed) -> dict:
     return out
 
 
-def minimise_for(chk, prog: dict, sig: str) -> dict:
+def minimise_for(chk, prog: dict, sig: str, deadline=None) -> dict:
     n = [0]
 
     def still_bad(cands):
@@ -125,7 +128,7 @@ def minimise_for(chk, prog: dict, sig: str) -> dict:
         _, _, printed = compile_and_judge(chk, cands, f"min{n[0]}", count=False)
         sigs = bad_signatures(printed)
         return [sig in sigs.get(i, set()) for i in range(len(cands))]
-    return pc.minimise(prog, still_bad)
+    return pc.minimise(prog, still_bad, deadline=deadline)
 
 
 def run(chk: vlib.Check) -> None:
@@ -196,12 +199,19 @@ def run(chk: vlib.Check) -> None:
         for b in bl:
             for s, what in signature(b):
                 grouped.setdefault(s, []).append((i, what, b))
+    import time
+    budget = time.time() + (240 if chk.tier == "quick" else 600)      # minimisation of NEW findings only
     for s, hits in sorted(grouped.items()):
         i, what, b = min(hits, key=lambda h: pc.prog_size(progs[h[0]]))
         prog = progs[i]
-        if vlib.finding_for(PROP, s) is None and len([x for x in grouped if vlib.finding_for(PROP, x) is None]) <= 6:
+        if vlib.finding_for(PROP, s) is None:
             try:
-                prog = minimise_for(chk, prog, s)
+                small = minimise_for(chk, prog, s, deadline=budget)
+                if small is not prog:
+                    _, _, pr = compile_and_judge(chk, [small], "minfinal", count=False)
+                    bs = [v for t, v in pr if t == "BAD" and any(x == s for x, _ in signature(v))]
+                    if bs:
+                        prog, b = small, bs[0]
             except ToolError as e:
                 log(f"[C25] minimisation failed: {e}")
         S_ = projlib.schema()
@@ -231,7 +241,7 @@ def replay(prop: str, path: Path, seed: int) -> int:
             o = projlib.compile_all(chk, [p], want=["artifacts", "js", "ops"])[0]
             expose = pc.expose_table("\n".join(p.get("extensions", [])), pc.sdl_type_names(p["schema"]))
             recs = records_of(o, None, expose, p["id"]) if o["outcome"] == "ok" else []
-            printed = pc.judge_all(chk, "ObsC25.tla", recs, tag="replay", count=False) if recs else []
+            printed = pc.judge_all(chk, "ObsC25.tla", recs, tag="replay", count=False, coverage_probe=False) if recs else []
             sigs = {s + "|demo" for t, v in printed if t == "BAD" for s, _ in signature(v)}
         hit = rp.get("signature") in sigs
         print(f"replay {path}: signature {'reproduced' if hit else 'not reproduced'}; now: {sorted(sigs)}")
